@@ -11,8 +11,8 @@ CONSTANTS
   AllowEvictLive = TRUE
   AllowForeignDelete = TRUE
   AllowForeignShorten = TRUE
-  MaxHist = 16
-INVARIANTS MutualExclusion OnlyOwnerReleases EmitAll
+  MaxHist = 18
+INVARIANTS TypeOK MutualExclusion OnlyOwnerReleases NeverTainted EmitAll
 VIEW view
 SYMMETRY Sym
 CHECK_DEADLOCK FALSE
